@@ -1,5 +1,5 @@
 (* C17 - Labels and map_err change how a failure is described, never whether or where. *)
-From Chum Require Import Corollaries.
+From Chum Require Import Corollaries Shelter.
 
 (* the machine's labelled / as_context / map_err are the specification's scopes (refinement) *)
 Theorem C17_machine_decorates_as_specified :
@@ -50,8 +50,37 @@ Theorem C17_map_err_applies_to_own_failure :
     sem K toks spn (S n) (MapErr k x) ctx p a = Some (None, add_alt_err false K a q (map_err_fn K k e)).
 Proof. exact sem_map_err_failure. Qed.
 
+(* as_context records a label at most once per error, however deeply the same label is nested and whatever lies between two
+   of its occurrences: Rich::in_context is idempotent per label and keeps the labels of an error's contexts distinct *)
+Theorem C17_a_label_is_recorded_at_most_once :
+  forall K l sp sp' e, NoDup (map fst (ectx e)) ->
+    NoDup (map fst (ectx (in_context K l sp e))) /\
+    in_context K l sp' (in_context K l sp e) = in_context K l sp e.
+Proof.
+  intros K l sp sp' e Hn. split; [|apply in_context_idem].
+  unfold in_context. destruct K; auto. destruct (has_ctx l (ectx e)) eqn:E; auto.
+  cbn [ectx]. apply nodup_snoc; auto. now apply has_ctx_false.
+Qed.
+
+(* and for whole grammars (without recover_with / extension parsers): the pending error the specification ends with carries
+   each label at most once, through every combination of labelled / as_context / map_err / choices / repetitions *)
+Theorem C17_pending_errors_carry_each_label_at_most_once :
+  forall K toks spn n g ctx p o q e, norec g = true -> envok ctx ->
+    sem K toks spn n g ctx p None = Some (o, Some (q, e)) -> NoDup (map fst (ectx e)).
+Proof.
+  intros K toks spn n g ctx p o q e Hn He H.
+  exact (proj2 (proj1 (sem_lift K toks spn n g ctx p None o (Some (q, e)) Hn He I H))).
+Qed.
+
+Example C17_nested_same_label_example :
+  let e0 := expected_found KRich [1%N] None (3, 4) in
+  ectx (in_context KRich 7 (0, 4) (in_context KRich 8 (1, 4) (in_context KRich 7 (2, 4) e0))) = [(7, (2, 4)); (8, (1, 4))].
+Proof. vm_compute. reflexivity. Qed.
+
 Print Assumptions C17_machine_decorates_as_specified.
 Print Assumptions C17_labelled_preserves_outcome.
 Print Assumptions C17_map_err_preserves_outcome.
 Print Assumptions C17_label_at_first_token_and_context_when_deeper.
 Print Assumptions C17_map_err_applies_to_own_failure.
+Print Assumptions C17_a_label_is_recorded_at_most_once.
+Print Assumptions C17_pending_errors_carry_each_label_at_most_once.
